@@ -57,7 +57,7 @@
 	                    ((q).n == 1 || (q).tail != (q).head)))
 #define MQ_LISTS_OK                                                        \
 	(MQ_LIST_OK(g_putq) && MQ_LIST_OK(g_getq) &&                           \
-	    !(g_putq.n > 0 && g_getq.n > 0 && g_putq.tail == g_last_app && g_getq.tail == g_last_app) && \
+	    !(g_putq.n > 0 && g_getq.n > 0 && g_putq.tail != NULL && g_putq.tail == g_last_app && g_getq.tail == g_last_app) && \
 	    (g_putq.n == 0 || g_getq.n == 0 ||                                 \
 	        (g_putq.head != g_getq.head && g_putq.head != g_getq.tail &&   \
 	            (g_putq.tail == NULL || (g_putq.tail != g_getq.head && g_putq.tail != g_getq.tail)))))
